@@ -24,3 +24,18 @@ def spelling_rule(chk, P, kinds):
                     "token kind %s is lexed by %s, the language spells it %r" % (kind, [(p["kind"], p["src"], p["callbacks"]) for p in ps], want))
         others = [k for k, qs in spec.tokens.items() if k != kind and any(q["kind"] == "token" and q["src"] == want for q in qs)]
         chk.require(not others, "LEX", "LEX:spelling:%s:unique" % kind, "", "the spelling %r is also claimed by %s" % (want, others))
+
+
+LITERALS = (("DecInt", "[1-9][0-9]*"), ("HexInt", "0[xX][0-9a-fA-F]+"), ("BinInt", "0[bB][01]+"), ("OctInt", "0[0-7]*"))
+
+
+def literal_language_rule(chk, P):
+    """An integer literal is one token however long its digit run is (unbounded repetition of exactly its digit class, after
+    exactly its prefix): a literal that does not fit is then one over-long token that the checked conversion rejects — not
+    a fitting literal followed by more tokens — and a digit of another radix or a letter ends it."""
+    spec = lexspec.load(P.f, "lexer::token::TokenKind")
+    if not chk.anchor("TokenKind lexer specification", spec):
+        return
+    for kind, rx in LITERALS:
+        chk.require(spec.same_language(kind, rx), "LEX", "LEX:literal:%s" % kind, "language of %s == %s" % (kind, rx),
+                    "the pattern of %s (%s) does not denote %s" % (kind, [p["src"] for p in spec.patterns(kind)], rx))
